@@ -293,7 +293,7 @@ def monitor(traces, workdir):
         for inv in INVARIANTS:
             handle.write(f'INVARIANT {inv}\n')
         handle.write('CHECK_DEADLOCK FALSE\n')
-    res = tlc.run('ConcTrace', cfg, workers=8, timeout=1500, args=['-continue'], env={'TRACE_FILE': trace_file})
+    res = tlc.run('ConcTrace', cfg, workers=1, timeout=1500, args=['-continue'], env={'TRACE_FILE': trace_file})
     hits = []
     for chunk in re.split(r'(?=Error: Invariant \w+ is violated)', res.output):
         m = re.match(r'Error: Invariant (\w+) is violated', chunk)
